@@ -62,7 +62,11 @@ def delta_features(old_spec, new_spec):
 
 
 def qual(features):
-    return "".join(":" + f for f in sorted(features))
+    """One qualifier: the most specific feature present (kind-change > multi-root > dir-rename)."""
+    for f in ("kind-change", "multi-root", "dir-rename"):
+        if f in features:
+            return ":" + f
+    return ""
 
 
 def check_history(dag, assign, acc, base_dir, modes=("plain", "rich"), obs=None):
@@ -93,6 +97,8 @@ def check_history(dag, assign, acc, base_dir, modes=("plain", "rich"), obs=None)
         feats = [delta_features(_hist.STATES[assign[dag[i][0]]], _hist.STATES[assign[i]]) if dag[i] else set()
                  for i in range(n)]
         all_feats = set().union(*feats)
+        if sum(1 for ps in dag if not ps) > 1:
+            all_feats.add("multi-root")
         for mode in modes:
             d = dict(hist, mode=mode)
             sfx = ":" + mode
@@ -114,7 +120,7 @@ def check_history(dag, assign, acc, base_dir, modes=("plain", "rich"), obs=None)
                     proc = generic_processor.GenericProcessor(bzrdir=control, params={b"mode": "default"}, verbose=False)
                     proc.process(parser.ImportParser(BytesIO(stream)).iter_commands)
                 except Exception as e:  # noqa
-                    acc.violation(sig_exc("import", e) + sfx + qual(all_feats), dict(d, error=str(e)[:300]))
+                    acc.violation(sig_exc("import", e) + sfx + (qual(all_feats) if mode == "plain" else ""), dict(d, error=str(e)[:300]))
                     continue
                 mark_of = dict(ex.revid_to_mark)           # source revid -> mark
                 marks = dict(proc.cache_mgr.marks)           # mark -> new revid
